@@ -278,11 +278,13 @@ class World:
                 self.files[p] = b""
             return MFile(self, path, p, binary, True)
         p = self.resolve(path)
-        self.access("read", path, p)
         if p in self.dirs:
+            self.access("read-failed", path, p)  # open() of a directory: nothing is read
             raise IsADirectoryError(errno.EISDIR, "Is a directory", path)
         if p not in self.files:
+            self.access("read-failed", path, p)
             raise FileNotFoundError(errno.ENOENT, "No such file or directory", path)
+        self.access("read", path, p)
         return MFile(self, path, p, binary, False)
 
     # -- snapshot (oracle side) ---------------------------------------------------------------------
